@@ -7,6 +7,7 @@ import (
 	"os"
 	"path/filepath"
 	"strings"
+	"time"
 
 	"github.com/f1bonacc1/process-compose/src/loader"
 )
@@ -447,6 +448,52 @@ func c17Scenarios(tier string) []*Scenario {
 			}
 			scs = append(scs, sc)
 		}
+	}
+	// the value of a per-process variable changed by a live update (nothing else changes): every command of the
+	// process launched once the update has been served receives the configured - new - value, the untouched
+	// variable next to it keeps its own
+	for _, pol := range []string{"always", "on_failure"} {
+		mk := func(v string) string {
+			return projectYAML([]string{"environment:", "  - 'VHG=g'"},
+				PC{Name: "p", Restart: pol, Backoff: 1, Lines: []string{"environment:", "  - 'VHX=" + v + "'", "  - 'VHK=keep'"}}, PC{Name: "x"})
+		}
+		sc := &Scenario{
+			ID:         "c17-update-value-" + pol,
+			YAML:       mk("old"),
+			Procs:      map[string]*ProcScript{"p": {Launches: exits(1)}, "x": {}},
+			K:          0,
+			TickBudget: 4,
+			Horizon:    30 * time.Second,
+		}
+		launched := func(w *World) bool { return w.launches["p#0"] > 0 }
+		sc.API = [][]APICall{{{Op: "update", YAML: mk("new"), When: launched}}}
+		sc.Check = func(w *World) []Violation {
+			var vs []Violation
+			tr := w.pre()
+			ret := findEvent(tr, 0, func(e Event) bool { return e.Kind == "api-ret" && !e.Flag })
+			if ret < 0 {
+				return nil
+			}
+			for i := ret; i < len(tr); i++ {
+				if tr[i].Kind != "start" || tr[i].Proc != "p#0" {
+					continue
+				}
+				for _, f := range w.procs {
+					if f.Key != "p#0" || f.Inst != tr[i].Inst {
+						continue
+					}
+					ev := effectiveEnv(f.Env)
+					if ev["VHX"] != "new" {
+						vs = append(vs, viol("C17", "per-process:stale-after-update", "launch %d of p, after the update that sets VHX=new had been served, receives VHX=%q", f.Inst, ev["VHX"]))
+					}
+					if ev["VHK"] != "keep" || ev["VHG"] != "g" {
+						vs = append(vs, viol("C17", "per-process:lost-after-update", "launch %d of p after the update receives VHK=%q VHG=%q", f.Inst, ev["VHK"], ev["VHG"]))
+					}
+				}
+			}
+			return vs
+		}
+		scs = append(scs, sc)
 	}
 	return scs
 }
